@@ -565,8 +565,7 @@ def runDjangoOp (d : Django) (a : LArgs) : Except String (Django × Out) := do
 
 def renderFan (f : Fanout) : String := " || ".intercalate (f.shards.map renderState)
 
-def mkShards (n : Nat) (c : Cfg) (stats : Bool) : List Cache :=
-  List.replicate n { cfg := { c with limD := c.limD * n }, statistics := stats }
+def mkShards (n : Nat) (c : Cfg) (stats : Bool) : List Cache := (Fanout.init n c stats).shards
 
 def answerLayer (st : DState) (head : String) (kv : KV) : DState × String :=
   let cls := kv.getD "cls" ""
